@@ -707,3 +707,45 @@ _old_run = run
 def run(ctx):
     _old_run(ctx)
     ctx.guard(r19_7)
+
+
+# ------------------------------------------------------------------------------------------------ R19.8
+def r19_8(ctx):
+    rep, model = ctx.rep, ctx.model
+    rep.rule("R19.8", "an explicitly requested adjoint method is what the backward pass is given (never silently "
+                      "replaced), for every (method, adjoint_method) pair; it reaches Function.apply unchanged")
+    dom = _dom(ctx)
+    sel = model.func(ADJOINT, "_select_default_adjoint_method")
+    rep.analysed(sel)
+    for st in dom.sde_types.values():
+        for m in dom.methods.values():
+            for am in list(dom.methods.values()) + ["<unknown-method>"]:
+                it = Interp(model, solvers.QuietHooks())
+                try:
+                    got = it.call_function(sel, [Obj("sde", attrs={"sde_type": st, "noise_type": "diagonal"}), m, am], {})
+                except SimRaise as e:
+                    got = ("raise", e.exc_name)
+                rep.check(got == am, "R19.8", astq.loc(sel), f"{sel.key}::R19.8::{st}/{m}/{am}",
+                          f"with method={m} the explicitly requested adjoint_method={am} is replaced by `{got}`: an "
+                          f"unsupported adjoint method would no longer be refused when the backward pass starts, and a "
+                          f"supported one would be silently ignored", "explicit adjoint_method honoured")
+    # sdeint_adjoint hands the selected method to the Function (role binding is R09.2); here: the value stored by forward
+    fwd = model.func(ADJOINT, "_SdeintAdjointMethod.forward")
+    stores = [n for n in own_nodes(fwd.node) if isinstance(n, ast.Assign) and ast.unparse(n.targets[0]) == "ctx.adjoint_method"]
+    ok = len(stores) == 1 and ast.unparse(stores[0].value) == "adjoint_method"
+    rep.check(ok, "R19.8", astq.loc(fwd), f"{fwd.key}::R19.8::ctx-adjoint-method",
+              "forward does not store its `adjoint_method` argument as ctx.adjoint_method", "ctx.adjoint_method = adjoint_method")
+    bwd = model.func(ADJOINT, "_SdeintAdjointMethod.backward")
+    sels = [c for c in astq.calls(bwd) if astq.call_name(c).endswith("methods.select")]
+    ok = len(sels) == 1 and ast.unparse(astq.kwarg(sels[0], "method") or sels[0].args[0]) == "ctx.adjoint_method"
+    rep.check(ok, "R19.8", astq.loc(bwd), f"{bwd.key}::R19.8::backward-select",
+              "backward does not select its solver from ctx.adjoint_method", "methods.select(method=ctx.adjoint_method, ...)")
+    ctx.floor("R19.8", 150)
+
+
+_run_c19c = run
+
+
+def run(ctx):
+    _run_c19c(ctx)
+    ctx.guard(r19_8)
